@@ -101,13 +101,22 @@ def run(ctx):
             ctx.check(arm['kind'] in ('fresh', 'utc'), 'C14-cache', 'recorded outcome: %s' % arm['text'], arm['node'],
                       'the value recorded for a loaded name is neither the fresh Impl nor the UTC singleton',
                       construct='outcome:%s:%s' % (L['fname'], arm['kind']), detail=arm['kind'])
-        kinds = set(a['kind'] for a in w['arms'])
-        ctx.check('utc' in kinds and 'fresh' in kinds, 'C14-cache', 'both outcomes recorded in %s' % L['fname'], w['node'],
-                  'the cache does not record both outcomes of a load (success: the new Impl; failure: the UTC '
-                  'singleton): a name that failed to load is retried, or a loaded one is forgotten',
-                  construct='outcomes:%s' % L['fname'], detail='success and failure arms present')
-    # every load site is post-dominated by a slot write  (failure is cached too)
+    # both outcomes are recorded: over all writes of the slot a fresh and a UTC arm exist, and once the
+    # slot has been found absent no path leaves the loader without passing one of the writes
+    kinds = set(a['kind'] for w in L['slot_writes'] for a in w['arms'])
     g = ctx.cfg(L['fn'])
+    wnodes = [n for w in L['slot_writes'] for n in g.nodes_for(w['node'])]
+    leak = False
+    for (gn, glab) in _slot_absent_edges(ctx, L, g):
+        starts = [m for (m, lab) in gn.succs if lab == glab]
+        if loader._reach_from(g, starts, [g.exit] + list(g.returns), cut=wnodes):
+            leak = True
+    ctx.check('utc' in kinds and 'fresh' in kinds and not leak, 'C14-cache', 'both outcomes recorded in %s' % L['fname'],
+              L['slot_writes'][0]['node'] if L['slot_writes'] else L['fn'],
+              'the cache does not record both outcomes of a load (success: the new Impl; failure: the UTC '
+              'singleton): a name that failed to load is retried, or a loaded one is forgotten',
+              construct='outcomes:%s' % L['fname'], detail='success and failure arms present; absent slot always filled')
+    # every load site is post-dominated by a slot write  (failure is cached too)
     pdom = g.postdominators()
     for s in L['sites']:
         sn = g.nodes_for(s)
@@ -503,6 +512,15 @@ def _fmt(r, sym):
 def _slot_guard_nodes(ctx, L, g):
     """cond nodes that test the cache slot for absence (they post-dominate the load
     together with the conditional insert)."""
+    out = []
+    for (n, lab) in _slot_absent_edges(ctx, L, g):
+        if not any(n is m for m in out):
+            out.append(n)
+    return out
+
+
+def _slot_absent_edges(ctx, L, g):
+    """(cond node, label) of the edges on which the cache slot is known to be null."""
     F = ctx.facts(L['fn'])
     out = []
     slotkeys = set()
@@ -511,9 +529,10 @@ def _slot_guard_nodes(ctx, L, g):
             slotkeys.add(F.keys.key(kids(w['node'])[0]))
     for n in g.live:
         if n.kind == 'cond':
-            for (op, a, b) in F.cond_facts(n.ast, True):
-                if (a in slotkeys and b == 'null') or (b in slotkeys and a == 'null'):
-                    out.append(n)
+            for lab in ('T', 'F'):
+                for (op, a, b) in F.cond_facts(n.ast, lab == 'T'):
+                    if op == '==' and ((a in slotkeys and b == 'null') or (b in slotkeys and a == 'null')):
+                        out.append((n, lab))
     return out
 
 
